@@ -1,5 +1,6 @@
 """C12 — simulation time is paced against real time by the configured speed."""
 import asyncio
+import copy
 import random
 
 import monitors
@@ -186,6 +187,26 @@ def run(tier, seed, drv):
         # (the generated cost scenarios stop after a fixed number of ticks, possibly before a late stimulus is served: no service monitor there)
         SC.check_run(scn, run_, drv, res, monitors_on=("pacing", "interrupt_stamp") + (("interrupts",) if k_ < n_mid else ()), corr=("ticks",) if costable else (), case_extra={"bus": "sync"},
                      with_real=costable, with_costs=costable)
+    # an interrupt of a device that is still WAITING for its upstream in the tick in progress (injected at every loop step of
+    # a tick whose upstream updates take real time): the update it gets in that tick, at the tick's time, does not stand for
+    # the arrival time
+    from .c07 import dev as dev7
+    for num, den in ([2, 1], [1, 1], [1, 2]):
+        P_ = 20_000_000 * num
+        scn = {"components": [dev7("slow", cb={"kind": "period", "p": P_}, cost=300_000), dev7("mid", {"i": ["slow", "o"]}, cost=300_000),
+                              dev7("wdev", {"i": ["mid", "o"]}, cost=50_000), dev7("other", cost=0)], "speed": [num, den], "n_ticks": 4, "max_steps": 6000}
+        base = run_scenario(scn, bus="sync")
+        mt0 = monitors.master_tid(base)
+        c2 = [e for e in base["trace"].of("t-call") if e["tid"] == mt0]
+        d2 = [e for e in base["trace"].of("t-done") if e["tid"] == mt0]
+        if len(c2) >= 2 and len(d2) >= 2:
+            for st in range(c2[1]["step"], d2[1]["step"] + 2):
+                for who in ("wdev", "mid"):
+                    s2 = dict(copy.deepcopy(scn), stims=[{"step": st, "comp": who}], n_ticks=5)
+                    run_ = run_scenario(s2, bus="sync")
+                    res.case(f"waiting:{num}/{den}:{st}:{who}", nontrivial=bool([e for e in run_["trace"].of("raise") if e.get("ok")]))
+                    res.count("interrupt-while-waiting-in-tick")
+                    SC.check_run(s2, run_, drv, res, monitors_on=("pacing", "interrupt_stamp", "interrupt_time_served"), corr=(), case_extra={"bus": "sync"})
     pacing_diff(rng, 400 if tier == "quick" else 5000, drv, res)
     for i, scn in enumerate(SC.corpus_scenarios() + timed_scenarios(rng, tier)):
         SC.stats_into(res, scn)
